@@ -142,6 +142,14 @@ class Mat(list):
     def shape(self):
         return (len(self), len(self[0]) if self else 0)
 
+    @property
+    def size(self):
+        return len(self) * (len(self[0]) if self else 0)
+
+    @property
+    def ndim(self):
+        return 2
+
 
 def _is_full_slice(n):
     return isinstance(n, ast.Slice) and n.lower is None and n.upper is None and n.step is None
@@ -334,11 +342,19 @@ class Evaluator:
                     return b.attrs[e.attr]
                 if e.attr in b.methods:
                     return ("<method>", b, e.attr)
+                if b.kind == "ndarray" and "shape" in b.attrs and e.attr in ("size", "ndim"):
+                    shp = b.attrs["shape"]
+                    if e.attr == "ndim":
+                        return len(shp)
+                    r_ = 1
+                    for x_ in shp:
+                        r_ *= x_
+                    return r_
                 raise Unsupported("attribute %s of %s" % (e.attr, b.kind))
             if b == "<numpy>":
                 return ("<numpy>", e.attr)
-            if isinstance(b, Mat) and e.attr == "shape":
-                return b.shape
+            if isinstance(b, Mat) and e.attr in ("shape", "size", "ndim"):
+                return getattr(b, e.attr)
             if isinstance(b, list) and e.attr == "shape":
                 return (len(b),)
             raise Unsupported("attribute %s" % norm(e))
@@ -458,7 +474,11 @@ class Evaluator:
                 cls = e.args[1]
                 names = [c.id for c in (cls.elts if isinstance(cls, ast.Tuple) else [cls]) if isinstance(c, ast.Name)]
                 return isinstance(args[0], Stub) and args[0].kind in names
-            table = {"len": len, "range": range, "abs": abs, "int": int, "float": float, "max": max, "min": min,
+            def _len(x):
+                if isinstance(x, Stub) and x.kind == "ndarray" and "shape" in x.attrs:
+                    return x.attrs["shape"][0]
+                return len(x)
+            table = {"len": _len, "range": range, "abs": abs, "int": int, "float": float, "max": max, "min": min,
                      "sum": sum, "list": list, "tuple": tuple, "sorted": sorted, "enumerate": enumerate, "zip": zip,
                      "set": set, "bool": bool}
             if name in table:
